@@ -57,6 +57,7 @@ type RunConfig struct {
 	RaceMonitor    bool
 	Deadline       time.Time
 	Known          []KnownFinding
+	ProfileForks   bool
 	Harness        string
 }
 
@@ -171,7 +172,16 @@ func harnessOverlay(pkgs []string) (map[string][]byte, map[string]string, error)
 }
 
 func loadProgram(sc *Sidecar) (*Loaded, error) {
-	ov, files, err := harnessOverlay(sc.Packages)
+	// all harness packages are always overlaid: harness files of one package may
+	// use helpers that another package's harness exports
+	var all []string
+	ents, _ := os.ReadDir(filepath.Join(verifDir, "harness"))
+	for _, e := range ents {
+		if e.IsDir() && e.Name() != "verifrt" {
+			all = append(all, e.Name())
+		}
+	}
+	ov, files, err := harnessOverlay(all)
 	if err != nil {
 		return nil, err
 	}
@@ -382,6 +392,7 @@ func runCheck(id, tier string, workers int, only string, noReplay, verbose bool)
 		for k, v := range hs.Params[tier] {
 			cfg.Params[k] = v
 		}
+		cfg.ProfileForks = verbose
 		cfg.ScheduleMode = hs.Schedule
 		cfg.RaceMonitor = hs.Race
 		for _, k := range known.Findings {
@@ -404,7 +415,7 @@ func runCheck(id, tier string, workers int, only string, noReplay, verbose bool)
 			}
 			ld.P.stubs[callee] = f
 		}
-		ex := &Explorer{P: ld.P, cfg: cfg}
+		ex := &Explorer{P: ld.P, cfg: cfg, progress: verbose}
 		if hs.MaxPaths != nil {
 			ex.maxPaths = hs.MaxPaths[tier]
 		}
@@ -414,6 +425,20 @@ func runCheck(id, tier string, workers int, only string, noReplay, verbose bool)
 		sum.Elapsed = time.Since(h0)
 		sums = append(sums, sum)
 		if verbose {
+			forks := map[string]int{}
+			for _, r := range ex.results {
+				for k, v := range r.Forks {
+					forks[k] += v
+				}
+			}
+			ks := sortedKeys(forks)
+			sort.Slice(ks, func(i, j int) bool { return forks[ks[i]] > forks[ks[j]] })
+			for i, k := range ks {
+				if i >= 12 {
+					break
+				}
+				fmt.Fprintf(os.Stderr, "    forks %7d  %s\n", forks[k], k)
+			}
 			fmt.Fprintf(os.Stderr, "%s: paths %v, %d assert queries (%d unsat), %d violations, %.1fs\n", hs.Fn, sum.Paths, sum.AssertQ, sum.AssertUnsat, len(sum.Violations), sum.Elapsed.Seconds())
 		}
 	}
